@@ -16,9 +16,9 @@ CLAIMED = {
          "Body trees (attributes, multi-line/one-line/empty blocks, nesting <= 2, 0..2 labels in every spelling of the escape table: bare, quoted, \\u/\\U escapes, escaped template introducers, multi-byte) x all renderings with <= 1 (quick) / <= 2 (thorough) deviations from canonical layout among indentation, token gaps, inline and line comments in every legal position, blank lines, CRLF, BOM, missing final newline. TLC checks WellFormed/Balanced on the spec; the replayer checks acceptance iff no duplicate attribute and exact structure.",
          "Identifier alphabet {a,b,t}; label alphabet by representative spellings; layout deviations bounded by MaxL.",
          "DESIGN.md §4 C02"),
- "C03": ("spec/HclDec.tla (MC_Dec)",
-         "TLC enumerates (decoding spec, body) pairs with the JsonExpressible predicate; each pair is rendered in native syntax and 4 admissible JSON encodings and decoded by the real hcldec; results compared differentially (and against HclDec.tla via C08)",
-         "All well-formed spec trees (17 kinds) of depth <= 1 x bodies <= 2 items and depth <= 2 x bodies <= 1 item (quick; thorough: depth 2 x 2 items); JSON forms: duplicate property names, arrays of block bodies, top-level array of objects, merged label objects with // comments. Same error-ness, RawEquals decoded values, same Content projection.",
+ "C03": ("spec/HclDec.tla (MC_Dec) + spec/JsonEnc.tla (MC_JsonEnc)",
+         "TLC enumerates (decoding spec, body) pairs with the JsonExpressible predicate; each pair is rendered in native syntax and 5 fixed admissible JSON encodings; JsonEnc.tla defines the set of ALL admissible encodings of a body as document trees and TLC enumerates every one for a family of 12 specs (the replayer only prints the tree); native and JSON forms are decoded by the real hcldec and compared differentially (and against HclDec.tla via C08)",
+         "All well-formed spec trees (17 kinds) of depth <= 1 x bodies <= 2 items and depth <= 2 x bodies <= 1 item (quick; thorough: depth 2 x 2 items); JSON forms: duplicate property names, arrays of block bodies, top-level array of objects, merged label objects with // comments, one object per item; MC_JsonEnc: bodies of <= 2 (thorough 3) items x every combination of body form (object / array of objects), block form (repeated properties / arrays / merged label objects), array placement (type level / innermost label level) and comment properties. Same error-ness, RawEquals decoded values, same Content projection, and the same block sequence across types for order-keeping encodings.",
          "Only JSON-expressible bodies (label counts as requested by the spec) are compared; attribute values are literals of every JSON-expressible type.",
          "DESIGN.md §4 C03"),
  "C04": ("spec/HclBody.tla (MC_C04)",
@@ -46,12 +46,12 @@ CLAIMED = {
          "All well-formed spec trees over all spec kinds (attr, literal, block, blocklist/tuple/set, blockmap/object with 1..2 labels, blockattrs, label, default, object, tuple, transform, validate, refine) x conforming and perturbed bodies (missing required, extraneous items, wrong literal types, wrong label counts, zero/one/many blocks, nested blocks).",
          "Documented preconditions respected (see DESIGN); results needing unification of differing element types are oom in the model (type relation still checked on the real output).",
          "DESIGN.md §4 C08"),
- "C09": ("spec/HclExpr.tla (MC_E1) + spec/HclStruct.tla (MC_C02)",
+ "C09": ("spec/HclExpr.tla (MC_E1) + spec/HclStruct.tla (MC_C02) + spec/MC_Gap.tla",
          "TLC-enumerated expressions (rendered in every layout incl. a space between every pair of tokens) and TLC-enumerated file layouts are formatted by hclwrite.Format; token sequence, parse result, attribute values and idempotence are compared on the real outputs",
          "Quick: every MC_E1 AST of depth 1 in 5 layouts x 2 embeddings + every MC_C02 file (2 items, 1 layout deviation); thorough: depth 2 and 2 deviations. Relation: lex(Format(src)) == lex(src) as (type, bytes) sequences, Format(src) parses error-free with identical attribute values, Format(Format(src)) == Format(src).",
-         "Heredoc templates are not generated yet; a dedicated HclFormat.tla (spacing table / glue relation) is planned, today the generators are the expression and structure machines.",
+         "MC_Gap.tla adds one (thorough: two) non-canonical gaps (nothing, blanks, tab, inline and line comments, newlines, CRLF) at every token boundary of every base expression; edited texts that do not parse are outside the statement and only counted. No separate HclFormat.tla: the generators are the expression, structure and gap machines.",
          "DESIGN.md §4 C09"),
- "C10": ("spec/HclExpr.tla (MC_E1) + spec/HclStruct.tla (MC_C02)",
+ "C10": ("spec/HclExpr.tla (MC_E1) + spec/HclStruct.tla (MC_C02) + spec/MC_Gap.tla",
          "same TLC-enumerated sources as C09 loaded with hclwrite.ParseConfig and saved; token sequence, equality with Format, and tree accessors (attributes, blocks, labels, variable references) compared with hclsyntax's view of the source",
          "Every traversal shape of the E1 generator (attribute, string/number/bool/null index keys, legacy index, splat) in every expression position and layout; comments before, inside and after items from the structure machine.",
          "Expression token comparison skipped where string templates or comments make spacing significant.",
@@ -68,10 +68,10 @@ CLAIMED = {
          "DESIGN.md §4 C12"),
  "C13": ("spec/Json8259.tla (MC_C13) + MC_E1",
          "TLC enumerates every byte-class string up to length N with the verdict of the TLA+ RFC 8259 pushdown recogniser; each is instantiated with seeded concrete bytes and given to json.ParseExpression / json.Parse; accepted documents are evaluated and compared with an independent decoder; JSON template strings are compared with the native template parser on MC_E1 expressions",
-         "Quick N=5 (0.5 M strings), thorough N=6 (8.6 M) over 22 classes (structural characters, two whitespace classes, ordinary and escape letters, \\uXXXX units valid and truncated, digit classes, sign, dot, exponent, literal words, raw control characters, invalid UTF-8). Error iff rejected; literal mapping (strings verbatim after unescaping, exact numbers, arrays as tuples, null as dynamic null, duplicate names rejected at evaluation); full-expression strings equal native templates.",
+         "Quick N=5 (0.5 M strings), thorough N=6 (8.6 M) over 22 classes (structural characters, two whitespace classes, ordinary and escape letters, \\uXXXX units valid and truncated, digit classes, sign, dot, exponent, literal words, raw control characters, invalid UTF-8). Error iff rejected, and every rejected-dead prefix is also checked with its string and containers closed (an extension of a dead prefix must be rejected); literal mapping (strings verbatim after unescaping, exact numbers, arrays as tuples, null as dynamic null, duplicate names rejected at evaluation); full-expression strings equal native templates.",
          "Recogniser calibrated per vector against encoding/json.Valid (drift = exit 2). Deep nesting and extreme numbers beyond length 6 come from the template/E1 part only.",
          "DESIGN.md §4 C13"),
- "C14": ("spec/HclLexPos.tla (MC_C14) + MC_E1 + MC_C02",
+ "C14": ("spec/HclLexPos.tla (MC_C14) + MC_E1 + MC_C02 + MC_Gap",
          "TLC enumerates every class string up to length N with the specification's reference position at each boundary; the three lexer entry points are run on the instantiated bytes and tokens are checked for tiling and position faithfulness (against HclLexPos.tla and an independent textseg counter); recorded ranges of error-free parses of TLC-generated expressions and files are sliced and re-parsed",
          "Quick N=4 (168 k strings x 2 start positions x 3 lexers), thorough N=5; plus every MC_E1 depth-1 (thorough: depth-2) expression in all layouts and every MC_C02 file for range fidelity of names, labels, braces, operators, call parts, traversal steps and expression re-parse.",
          "Position checks apply where token boundaries are grapheme-cluster boundaries (as the statement says); UAX #29 segmentation is the dependency textseg.",
@@ -79,7 +79,7 @@ CLAIMED = {
  "C15": ("spec/MC_C15.tla (HclDamage over MC_E1)",
          "TLC enumerates base programs x damage operations (insert/replace/delete/truncate with a 47-token damage alphabet); every damaged input is fed to all 9 parsing entry points, twice, under a watchdog; results, diagnostics and follow-up schema application/evaluation are checked",
          "Quick: 146 base ASTs covering every production x 6 positions x 4 damage kinds x 47 tokens (84 k inputs x 3 embeddings); thorough: ~1000 base ASTs x 12 positions (1-2 M). No panic, no hang, deterministic, non-nil result or error diagnostics, diagnostics with severity, summary and in-bounds ranges; partial bodies accept schemas without panic.",
-         "Single damages on grammar-derived inputs (MaxK=1); the peeker protocol trace validation (Peeker.tla) is planned on top of this.",
+         "Single damages on grammar-derived inputs (MaxK=1). The parser's newline-stack / recovery protocol is recorded through the hooks while the damaged inputs are parsed and validated by TLC against Peeker.tla (Trace_Peeker).",
          "DESIGN.md §4 C15"),
  "C16": ("spec/GoHcl.tla (MC_C16) + MC_Dec bodies",
          "TLC enumerates abstract values of a fixed struct family (checking the abstract round-trip law on the model); each is built as a Go value, encoded with gohcl, parsed, decoded and compared, and decoded again from the equivalent JSON document; arbitrary generated bodies are decoded into every struct type for panic-freedom",
@@ -89,7 +89,7 @@ CLAIMED = {
  "C17": ("spec/SplatConc.tla + spec/Trace_Splat.tla",
          "SplatConc.tla model-checked exhaustively (ReadOwn, NoLeak; shared-context config must fail); TLC simulation behaviours forced onto real goroutines through build-tag hooks used as a scheduler gate; free-running perturbed runs recorded under the values lock and validated by TLC against the spec (trace validation, with a corrupted-trace rejection smoke test); 16-goroutine concurrent decoding of shared native/JSON/dynblock bodies; race detector build",
          "Every interleaving of the lock-protected symbol operations of 3 goroutines on a nested splat is explored on the model; 150 (quick) / 3000 (thorough) TLC schedules replayed deterministically on hclsyntax.AnonSymbolExpr; 300 / 4000 recorded runs of 4 goroutines validated; 300 / 3000 rounds x 16 goroutines x 3 body kinds compared with the sequential result.",
-         "Hooks: build tag verif (hclsyntax/verif_hook_on.go). Weak-memory effects and races inside one operation are left to the Go race detector.",
+         "Hooks: build tag verif (hclsyntax/verif_hook_on.go). If a code change bypasses the hooks, schedules cannot be forced and the check falls back to 3000 hook-free 8-goroutine rounds judged by the same relation. Weak-memory effects and races inside one operation are left to the Go race detector.",
          "DESIGN.md §4 C17"),
  "C18": ("spec/DynBlock.tla + spec/HclDec.tla (MC_C18)",
          "TLC enumerates bodies mixing static and dynamic blocks with the specification's written-out static body (DynBlock!WrittenOut) and decoded value; the real dynblock.Expand + hcldec.Decode is compared with decoding the written-out body, with the model value, under unknown for_each, and in the scope pruned to the reported variables",
